@@ -16,11 +16,16 @@ CF = {"photon": "FPhoton", "pixel": "FPixel", "signal": "FSignal", "image": "FIm
 
 TRUSTED = [
     "translator/c18.py (to_dict/from_dict key tables of CCD/CMOS/MKID/APD, Detector.from_dict dispatch, Photon sub-keys "
-    "and escaping, pass-through shape of backends/asdf.py, body shape of load_detector; fails closed)",
+    "and escaping; that every comprehension of to_asdf / Scene.to_dict / Scene.from_dict / Photon.to_dict / from_dict keeps "
+    "EVERY entry and converts with a plain .to_dict(); pass-through shape of backends/asdf.py and whether the cluster "
+    "table's row labels are stored and read back; body shapes of load_detector and save_detector; fails closed)",
     "correspondence harness: harness/props/c18.py generators, harness/drivers/c18.py, probes/verif_probes_c18.py "
-    "(structural canonical form; floats compared as binary64 bit patterns)",
-    "modelled, not verified: asdf's own serialisation of arrays/dicts, xarray DataArray/Dataset/DataTree to_dict/from_dict, "
-    "pandas DataFrame.to_dict(orient='list') / DataFrame(dict) (the model only says: row labels are not stored)",
+    "(structural canonical form: every group of a tree, variables / coordinates with dims in order, dtype, shape, values, "
+    "attributes of groups / variables / coordinates; floats compared as binary64 bit patterns)",
+    "modelled, not verified: asdf's own serialisation of arrays/dicts; xarray Dataset/DataArray.to_dict()/from_dict modelled "
+    "as 'values become nested lists, numpy infers dtype and shape back' (Model/Codec.v listify_arr, tied by correspondence "
+    "on 16 dtypes and 0-d / 0-length / 0-size shapes); DataTree.to_dict/from_dict modelled as path flattening + creation of "
+    "implied ancestors; pandas DataFrame.to_dict(orient='list') / DataFrame(dict, index=...)",
 ]
 
 
@@ -36,13 +41,25 @@ def gen_container(r, f, rows, cols, flavour=None):
     n = rows * cols
     if f == "photon":
         mode = flavour or r.choice(["2d", "3d"])
-        if mode == "2d":
-            return {"mode": "2d", "vals": [dy(r) for _ in range(n)]}
+        if mode.startswith("2d"):
+            out = {"mode": "2d", "vals": [dy(r) for _ in range(n)]}
+            if mode == "2d_narrow" or (flavour is None and r.random() < 0.25):
+                out["dtype"] = r.choice(["float32", "float16"])       # Photon.TYPE_LIST; stored as an ndarray: kept
+            return out
         nw = r.choice([1, 2, 3])
         wl = sorted(r.sample(range(300, 900, 25), nw))
-        return {"mode": "3d", "wl": wl, "vals": [dy(r) for _ in range(n * nw)]}
+        out = {"mode": "3d", "wl": wl, "vals": [dy(r) for _ in range(n * nw)]}
+        if mode == "3d_narrow":       # known defect class: a DataArray goes through .to_dict(): the dtype is not stored
+            out["dtype"] = r.choice(["float32", "float16"])
+        if mode == "3d_attrs" or (flavour is None and r.random() < 0.3):
+            out["attrs"] = gen_attrs(r)
+            out["name"] = r.choice(["photon", "ph #1", None])
+            out["wl_attrs"] = gen_attrs(r, 1)
+        return out
     if f in ("pixel", "signal", "phase", "charge_array"):
         v = [dy(r, 1 if f == "charge_array" else 0) for _ in range(n)]
+        if f != "charge_array" and (flavour == "narrow" or (flavour is None and r.random() < 0.25)):
+            return {"dtype": r.choice(["float32", "float16"]), "vals": v}     # TYPE_LIST of Pixel / Signal / Phase
         return v
     if f == "image":
         dt = r.choice(["uint8", "uint16", "uint32", "uint64"])
@@ -63,8 +80,19 @@ def gen_container(r, f, rows, cols, flavour=None):
             wl = sorted(r.sample(range(300, 900, 50), 2))
             srcs.append({"nref": nref, "wl": wl, "x": [dy(r) for _ in range(nref)], "y": [dy(r) for _ in range(nref)],
                          "weight": [dy(r) for _ in range(nref)], "flux": [dy(r) for _ in range(nref * 2)]})
-        return {"sources": srcs}
+        out = {"sources": srcs}
+        if flavour and flavour.startswith("tree:"):
+            parts = flavour.split(":")
+            # the sources under /list carry their own `ref` / `wavelength` coordinates and variables named x / y: other
+            # groups stay clear of those names (an inherited coordinate named like a variable of a sub-group shadows
+            # it inside xarray's DataTree.to_dict - not a statement about pyxel's codec)
+            out["tree"] = gen_tree(r, parts[1], avoid=("/list",), dims=["k", "time", "k k", "z z"])
+            if parts[2:] == ["only"]:       # a scene that holds no source at all, only other groups
+                out["sources"] = []
+        return out
     if f == "data":
+        if flavour and flavour.startswith("tree:"):
+            return {"tree": gen_tree(r, flavour[5:])}
         nodes = []
         names = ["/stat", "/foo/bar", "/foo/baz", "/a_b/c-d"]
         if flavour == "hash":
@@ -73,6 +101,235 @@ def gen_container(r, f, rows, cols, flavour=None):
             nodes.append({"path": p, "vals": [dy(r) for _ in range(r.choice([1, 2, 3]))], "var": r.choice(["v", "mean"])})
         return {"nodes": nodes}
     raise ValueError(f)
+
+
+
+# ---- trees (processed data `detector.data`, and extra groups of `detector.scene.data`) -----------------------------
+# A tree spec is {"root": GROUP | None, "groups": [GROUP with "path"]}; GROUP = {"attrs", "vars", "coords"};
+# a variable is {"name", "dims", "shape", "dtype", "vals", "attrs"} (harness/drivers/c18.py builds it with xarray).
+# Dimension sizes are global per tree and an index coordinate of a dimension is defined in at most one group, so that
+# every generated tree is a VALID DataTree (children align with what they inherit).
+
+GROUP_NAMES = ["stat", "foo", "bar", "a_b", "c-d", "x.y", "0", "a b", "été", "snr", "prov", ".h", "Z", "list", "data"]
+VAR_NAMES = ["v", "mean", "var", "v w", "k#", "µ", "flux", "_"]
+DIM_NAMES = ["k", "time", "x", "y", "k k", "wavelength"]
+DEFAULT_DTYPES = ["float64", "int64", "bool", "complex128", "str", "datetime64[us]"]      # survive Dataset.to_dict()
+NARROW_DTYPES = ["int32", "uint8", "uint16", "int8", "uint64", "float32", "float16", "complex64", "datetime64[ns]",
+                 "datetime64[s]"]
+SPECIAL_FLOATS = ["nan", "inf", "-inf", "-0.0"]
+
+
+def gen_vals(r, dt, n, special=False):
+    if dt.startswith("float"):
+        return [(r.choice(SPECIAL_FLOATS) if special and r.random() < 0.4 else dy(r, -32, 64)) for _ in range(n)]
+    if dt.startswith("complex"):
+        return [[dy(r, -8, 8), (r.choice(SPECIAL_FLOATS) if special and r.random() < 0.3 else dy(r, -8, 8))] for _ in range(n)]
+    if dt == "bool":
+        return [r.randrange(2) for _ in range(n)]
+    if dt == "str":
+        return [r.choice(["", "a", "ab", "x y", "#", "/", "é"]) for _ in range(n)]
+    if dt.startswith("datetime64"):
+        return [86400 * 10 ** 9 * r.randrange(0, 20000) for _ in range(n)]      # whole days: exact in every unit
+    if dt.startswith("uint"):
+        return [r.randrange(0, 100) for _ in range(n)]
+    if dt == "int64":
+        return [r.choice([r.randrange(-50, 50), 2 ** 53 + 1, -2 ** 62]) if r.random() < 0.1 else r.randrange(-50, 50) for _ in range(n)]
+    return [r.randrange(-50, 50) for _ in range(n)]
+
+
+def gen_attrs(r, k=None):
+    pool = [("long_name", "Statistics"), ("units", "e-"), ("run_id", 42), ("scale", 0.25), ("flag", True), ("none", None),
+            ("levels", [1, 2, 3]), ("mix", [1, 2.5, "s"]), ("empty", ""), ("a/b", 1), ("c#d", "x#y"), ("neg", -3),
+            ("ü", "ä"), ("nested", [[1, 2], [3]]), ("title", "a 'quoted' \"name\"")]
+    return dict(r.sample(pool, k if k is not None else r.choice([1, 1, 2, 3])))
+
+
+class TreeGen:
+    def __init__(self, r, dtypes=None, special=False, zero=False, dims=None):
+        self.r, self.special = r, special
+        self.dims = dims or DIM_NAMES
+        self.dtypes = dtypes or DEFAULT_DTYPES
+        self.size = {}
+        self.indexed = set()
+        self.zero = zero
+
+    def dim(self, name):
+        if name not in self.size:
+            self.size[name] = self.r.choice([1, 2, 2, 3])
+        return self.size[name]
+
+    def var(self, name, dims, dtype=None, attrs=None):
+        dtype = dtype or self.r.choice(self.dtypes)
+        shape = [self.dim(d) for d in dims]
+        n = 1
+        for x in shape:
+            n *= x
+        return {"name": name, "dims": list(dims), "shape": shape, "dtype": dtype,
+                "vals": gen_vals(self.r, dtype, n, self.special), "attrs": attrs or {}}
+
+    def index_coord(self, d, attrs=None):
+        """an index coordinate for dimension d (None if one exists already somewhere in the tree)."""
+        if d in self.indexed:
+            return None
+        self.indexed.add(d)
+        n = self.dim(d)
+        dt = self.r.choice(["float64", "int64", "float64", "str"])
+        start = self.r.randrange(0, 8)
+        vals = {"float64": [start / 2 + i for i in range(n)], "int64": [start + 2 * i for i in range(n)],
+                "str": [f"l{start + i}" for i in range(n)]}[dt]
+        return {"name": d, "dims": [d], "shape": [n], "dtype": dt, "vals": vals, "attrs": attrs or {}}
+
+    def group(self, path, kind):
+        """kind: vars | coords_only | attrs_only | empty | mixed"""
+        r = self.r
+        g = {"path": path, "attrs": {}, "vars": [], "coords": []}
+        if kind in ("vars", "mixed"):
+            names = r.sample(VAR_NAMES, r.choice([1, 1, 2, 3]))
+            for nm in names:
+                nd = r.choice([0, 1, 1, 1, 2, 3]) if kind == "mixed" else r.choice([1, 1, 2])
+                dims = r.sample(self.dims, nd)
+                g["vars"].append(self.var(nm, dims, attrs=gen_attrs(r) if r.random() < 0.3 else None))
+            for d in {d for v in g["vars"] for d in v["dims"]}:
+                if r.random() < 0.5:
+                    c = self.index_coord(d, gen_attrs(r, 1) if r.random() < 0.3 else None)
+                    if c:
+                        g["coords"].append(c)
+            if r.random() < 0.25 and g["vars"] and g["vars"][0]["dims"]:
+                d = g["vars"][0]["dims"][0]        # a non-index coordinate along an existing dimension, and a scalar one
+                g["coords"].append(self.var("lab_" + d.replace(" ", ""), [d], dtype=r.choice(["str", "int64", "bool"])))
+            if r.random() < 0.15:
+                g["coords"].append(self.var("ref_value", [], dtype="float64", attrs=gen_attrs(r, 1)))
+            if r.random() < 0.4:
+                g["attrs"] = gen_attrs(r)
+        elif kind == "coords_only":
+            for d in r.sample(self.dims, r.choice([1, 1, 2])):
+                c = self.index_coord(d, gen_attrs(r, 1) if r.random() < 0.4 else None)
+                g["coords"].append(c if c else self.var("c_" + d.replace(" ", ""), [d], dtype="float64"))
+            if r.random() < 0.5:
+                g["attrs"] = gen_attrs(r)
+        elif kind == "attrs_only":
+            g["attrs"] = gen_attrs(r, r.choice([1, 2, 3]))
+        return g
+
+
+def rand_path(r, depth=None, under=None):
+    depth = depth or r.choice([1, 1, 2, 2, 3, 4])
+    return (under or "") + "/" + "/".join(r.choice(GROUP_NAMES) for _ in range(depth))
+
+
+def gen_tree(r, flavour=None, avoid=(), dims=None):
+    """A tree spec.  flavours: the structural classes named by the property (each is a separate, pure class so that a
+    failure is attributed to ONE cause); None = random composition over default dtypes."""
+    flavour = flavour or "random"
+    tg = TreeGen(r, dims=dims)
+    groups, root = [], None
+    if flavour == "coord_only_parent":
+        # a parent that only defines the coordinate shared by its sub-groups (+ attributes on it)
+        p = "/" + r.choice(["stat", "foo", "a b"])
+        d = r.choice(["time", "k"])
+        par = {"path": p, "attrs": gen_attrs(r, 1) if r.random() < 0.6 else {}, "vars": [], "coords": [tg.index_coord(d, gen_attrs(r, 1))]}
+        groups = [par, {"path": p + "/pix", "attrs": {}, "coords": [], "vars": [tg.var("mean", [d], "float64"), tg.var("var", [d], "float64")]},
+                  {"path": p + "/sig", "attrs": {}, "coords": [], "vars": [tg.var("mean", [d, "x"], "float64")]}]
+    elif flavour == "attr_only":
+        groups = [tg.group(rand_path(r, r.choice([1, 2])), "attrs_only")]
+        if r.random() < 0.5:
+            groups.append(tg.group("/ctl", "vars"))
+    elif flavour == "empty_leaf":
+        groups = [tg.group("/a", "vars"), {"path": "/a/empty", "attrs": {}, "vars": [], "coords": []}]
+        if r.random() < 0.5:
+            groups.append({"path": "/lonely", "attrs": {}, "vars": [], "coords": []})
+    elif flavour == "deep":
+        groups = [tg.group(rand_path(r, r.choice([3, 4, 5])), r.choice(["vars", "attrs_only", "coords_only"]))]
+    elif flavour == "root":
+        root = tg.group("/", r.choice(["vars", "attrs_only", "coords_only", "mixed"]))
+        groups = [tg.group("/child", r.choice(["vars", "empty"]))] if r.random() < 0.7 else []
+    elif flavour == "var_attrs":
+        g = tg.group("/a", "vars")
+        for v in g["vars"]:
+            v["attrs"] = gen_attrs(r)
+        c = tg.index_coord(g["vars"][0]["dims"][0], gen_attrs(r, 2))
+        if c:
+            g["coords"].append(c)
+        groups = [g]
+    elif flavour == "names":
+        g = tg.group("/" + r.choice(["a b", "été", ".h", "0", "x.y", "c-d"]) + "/" + r.choice(["a b", "été", "Z", "0"]), "vars")
+        g["vars"].append(tg.var("", ["k k"], "float64"))
+        g["vars"].append(tg.var("#", ["µ"], "float64"))
+        groups = [g]
+    elif flavour == "zero":
+        tg.size["z"] = 0
+        groups = [{"path": "/a", "attrs": {}, "coords": [], "vars": [tg.var("scalar", [], "float64"), tg.var("iscalar", [], "int64"),
+                                                                     tg.var("bscalar", [], "bool"), tg.var("sscalar", [], "str"),
+                                                                     tg.var("none", ["z"], "float64"), tg.var("one", ["o"], "float64"),
+                                                                     tg.var("none2", ["k", "z"], "float64")]}]
+    elif flavour == "dtypes":
+        groups = [{"path": "/a", "attrs": {}, "coords": [], "vars": [tg.var("v_" + dt.split("[")[0], ["k"] if i % 2 else ["k", "x"], dt)
+                                                                     for i, dt in enumerate(DEFAULT_DTYPES)]}]
+    elif flavour == "special_floats":
+        tg.special = True
+        tg.size["k"] = 3
+        groups = [{"path": "/a", "attrs": {}, "coords": [], "vars": [tg.var("v", ["k"], "float64"), tg.var("c", ["k"], "complex128")]}]
+    elif flavour == "narrow_dtype":        # known defect class: the dtype of a variable is not stored
+        dt = r.choice(NARROW_DTYPES)
+        groups = [{"path": "/a", "attrs": {}, "coords": [], "vars": [tg.var("v", ["k"], dt)]}]
+    elif flavour == "zero_len_nonfloat":   # same defect: [] carries no dtype
+        tg.size["z"] = 0
+        groups = [{"path": "/a", "attrs": {}, "coords": [], "vars": [tg.var("v", ["z"], r.choice(["int64", "bool", "str", "complex128"]))]}]
+    elif flavour == "zero_size_nd":        # same defect: [] carries no shape either
+        tg.size["z"] = 0
+        groups = [{"path": "/a", "attrs": {}, "coords": [], "vars": [tg.var("v", r.choice([["z", "k"], ["z", "k", "x"], ["k", "z", "x"]]), "float64")]}]
+    elif flavour == "shared_dims":
+        d = r.choice(["time", "k"])
+        par = tg.group("/p", "vars")
+        par["vars"].append(tg.var("pv", [d], "float64"))
+        c = tg.index_coord(d)
+        if c:
+            par["coords"].append(c)
+        groups = [par, {"path": "/p/c", "attrs": {}, "coords": [], "vars": [tg.var("cv", [d, "x"], "float64"), tg.var("cw", ["x", d], "int64")]},
+                  {"path": "/p/c/gc", "attrs": {}, "coords": [], "vars": [tg.var("gv", [d], "bool")]}]
+    elif flavour == "dim_order":
+        groups = [{"path": "/a", "attrs": {}, "coords": [], "vars": [tg.var("v", ["x", "y"], "float64"), tg.var("w", ["y", "x"], "float64"),
+                                                                     tg.var("u", ["y", "k", "x"], "int64")]}]
+    elif flavour == "hash":
+        groups = [tg.group("/a#b", "vars")]
+    else:       # random composition
+        paths = []
+        for _ in range(r.choice([1, 2, 3, 4])):
+            pth = rand_path(r, under=r.choice(paths) if paths and r.random() < 0.4 else None)
+            if pth not in paths:
+                paths.append(pth)
+        for pth in paths:
+            groups.append(tg.group(pth, r.choice(["vars", "vars", "mixed", "coords_only", "attrs_only", "empty"])))
+        if r.random() < 0.3:
+            root = tg.group("/", r.choice(["attrs_only", "vars", "coords_only"]))
+    if avoid:
+        groups = [g for g in groups if not any(g["path"] == a or g["path"].startswith(a + "/") for a in avoid)]
+    for g in ([root] if root else []) + groups:
+        g["coords"] = [c for c in g["coords"] if c]
+    return {"flavour": flavour, "root": root, "groups": groups}
+
+
+TREE_FLAVOURS = ["coord_only_parent", "attr_only", "empty_leaf", "deep", "root", "var_attrs", "names", "zero", "dtypes",
+                 "special_floats", "shared_dims", "dim_order", "random"]
+TREE_DEFECT_FLAVOURS = ["narrow_dtype", "zero_len_nonfloat", "zero_size_nd"]
+
+
+def tree_vars(tree):
+    for g in ([tree["root"]] if tree.get("root") else []) + list(tree.get("groups", [])):
+        for v in list(g.get("vars", [])) + list(g.get("coords", [])):
+            yield g, v
+
+
+def tree_class(tree):
+    """the input class of a tree spec, w.r.t. the classes for which the unchanged codec is known to lose something."""
+    if any("#" in g["path"] for g in tree.get("groups", [])):
+        return "hash_in_group_name"
+    # a length-0 dimension that is not the last one: the nested list has fewer levels than the variable has dims
+    if any(0 in v["shape"] and v["shape"].index(0) < len(v["shape"]) - 1 for _, v in tree_vars(tree)):
+        return "tree_zero_size_nd"
+    if any(v["dtype"] not in DEFAULT_DTYPES or (0 in v["shape"] and v["dtype"] != "float64") for _, v in tree_vars(tree)):
+        return "tree_dtype_not_default"
+    return "plain"
 
 
 def fields_of(kind):
@@ -116,12 +373,22 @@ def structured_cases(ctx: Ctx, r):
             cases.append({"route": route, "spec": make_spec(r, kind, fs, {"photon": "3d"})})
             cases.append({"route": route, "spec": make_spec(r, kind, fs, {"photon": "2d"})})
             for f in fs:
-                for fl in ({"photon": ["2d", "3d"]}.get(f, [None])):
+                for fl in ({"photon": ["2d", "3d", "2d_narrow", "3d_narrow", "3d_attrs"], "pixel": [None, "narrow"],
+                            "signal": [None, "narrow"], "phase": [None, "narrow"]}.get(f, [None])):
                     cases.append({"route": route, "spec": make_spec(r, kind, [f], {f: fl} if fl else None)})
             # array + cluster table together, relabelled rows, '#' in a processed-data group name
             cases.append({"route": route, "spec": make_spec(r, kind, ["charge_array", "charge_frame"])})
             cases.append({"route": route, "spec": make_spec(r, kind, ["charge_frame"], {"charge_frame": "relabel"})})
             cases.append({"route": route, "spec": make_spec(r, kind, ["data"], {"data": "hash"})})
+            # trees: every structural class the property text names, for the processed data and for the scene
+            allfl = TREE_FLAVOURS + TREE_DEFECT_FLAVOURS
+            for j, fl in enumerate(allfl):
+                # the variable-less-group classes for every (type, route); the other classes alternate over (type, route)
+                if fl in ("coord_only_parent", "attr_only", "empty_leaf", "root") or ctx.tier != "quick" \
+                        or (j + KINDS.index(kind) + (route == "dict")) % 2 == 0:
+                    cases.append({"route": route, "spec": make_spec(r, kind, ["data"], {"data": "tree:" + fl})})
+            for fl in ("coord_only_parent", "attr_only", "empty_leaf", "random", "root", "narrow_dtype"):
+                cases.append({"route": route, "spec": make_spec(r, kind, ["scene"], {"scene": "tree:" + fl + (":only" if fl in ("attr_only", "root") else "")})})
         # the explicit entry points
         cases.append({"route": "asdf", "save": "to_asdf", "load": "from_asdf", "spec": make_spec(r, kind, fs[:4])})
         cases.append({"route": "asdf", "load": "class_load", "spec": make_spec(r, kind, fs[:4])})
@@ -135,8 +402,11 @@ def random_cases(ctx: Ctx, r, n):
         fs = fields_of(kind)
         present = [f for f in fs if r.random() < 0.5]
         fl = {}
-        if "data" in present and r.random() < 0.08:
-            fl["data"] = "hash"
+        if "data" in present:
+            u = r.random()
+            fl["data"] = "hash" if u < 0.06 else ("tree:" + r.choice(TREE_FLAVOURS + ["random"] * 4) if u < 0.8 else None)
+        if "scene" in present and r.random() < 0.5:
+            fl["scene"] = "tree:" + r.choice(["random", "random", "attr_only", "coord_only_parent", "empty_leaf", "deep"])
         cases.append({"route": "asdf" if i % 3 else "dict", "spec": make_spec(r, kind, present, fl)})
     return cases
 
@@ -159,6 +429,35 @@ def exhaustive_cases(ctx: Ctx, r):
     return cases
 
 
+def exhaustive_tree_cases(ctx: Ctx, r):
+    """every tree over the paths {/a, /b, /a/x, /a/x/y} (every non-empty subset; a missing intermediate group is then
+    an implied, empty one) with every assignment of a content class {variables, coordinates only, attributes only,
+    nothing} to its groups: (1+4)^4 - 1 = 624 trees, as processed data via .asdf (types in turn) and, for the
+    deepest ones, as scene groups via the dictionary."""
+    cases = []
+    paths = ["/a", "/b", "/a/x", "/a/x/y"]
+    kinds = [None, "vars", "coords_only", "attrs_only", "empty"]
+    n = 0
+    for combo in itertools.product(kinds, repeat=len(paths)):
+        if not any(combo):
+            continue
+        tg = TreeGen(r, dims=["k", "time", "k k"])
+        groups = [tg.group(pth, kd) for pth, kd in zip(paths, combo) if kd]
+        for g in groups:
+            g["coords"] = [c for c in g["coords"] if c]
+        tree = {"flavour": "exhaustive", "root": None, "groups": groups}
+        kind = KINDS[n % 4]
+        n += 1
+        spec = make_spec(r, kind, [], dims=(2, 2), props={})
+        spec["init"] = {"data": {"tree": tree}}
+        cases.append({"route": "asdf", "exhaustive": True, "spec": spec})
+        if combo[3] and not combo[1]:
+            spec2 = make_spec(r, kind, [], dims=(2, 2), props={})
+            spec2["init"] = {"scene": {"sources": [], "tree": tree}}
+            cases.append({"route": "dict", "exhaustive": True, "spec": spec2})
+    return cases
+
+
 def pipeline_cases(ctx: Ctx, r, per_kind):
     cases = []
     groups = ["photon_collection", "charge_generation", "charge_collection", "charge_measurement", "readout_electronics"]
@@ -169,8 +468,14 @@ def pipeline_cases(ctx: Ctx, r, per_kind):
             present = fs if j == 0 else ([f for f in fs if r.random() < 0.6] or ["pixel"])
             filespec = make_spec(r, kind, present, {"charge_frame": "plain", "photon": r.choice(["2d", "3d"])}, dims=dims, props={})
             running = make_spec(r, kind, [f for f in fs if r.random() < 0.4], {"charge_frame": "plain"}, dims=dims, props={})
-            cases.append({"route": "pipeline", "spec": filespec, "running": running, "probe_before": True,
-                          "group": groups[j % len(groups)]})
+            case = {"route": "pipeline", "spec": filespec, "running": running, "probe_before": True,
+                    "group": groups[(j + 2 * KINDS.index(kind)) % len(groups)]}
+            if j % 2 == 1 or j == 0:
+                # save_detector as a MODEL (in any group) writes the file; the loading pipeline first fills its detector
+                case.update(save="model", save_group=groups[(j + KINDS.index(kind)) % len(groups)], fill_running=True)
+            cases.append(case)
+            if j == 0:
+                cases.append(dict(case, save=None, fill_running=True))
     return cases
 
 
@@ -221,7 +526,34 @@ def coq_cases(payload, obs):
             run = obs.get("before")
             rr = "None" if run is None else f"(Some {c_snap(run)})"
             out.append((lab, f"(mk_case RLoad {c_snap(obs['file'])} {rr} {bb})"))
+        if "file_back" in obs:      # the file written by the save_detector model, read back outside any pipeline
+            fb = obs["file_back"]
+            out.append(("file", f"(mk_case RFile {c_snap(obs['file'])} None {'None' if 'raise' in fb else '(Some ' + c_snap(fb) + ')'})"))
     return out
+
+
+def c_dtree(t):
+    return f"(DNode {c_items(t['items'])} {core.clist('(' + _lab(n) + ', ' + c_dtree(c) + ')' for n, c in t['children'])})"
+
+
+def tree_units(payload, obs):
+    """[(label, coq text)]: the nested view of the data / scene tree, the keys to_dict wrote, what came back."""
+    out = []
+    for name, tr in sorted((obs.get("trees") or {}).items()):
+        if not tr["orig"]["items"] and not tr["orig"]["children"]:
+            continue        # a tree that is only an empty root
+        back = "None" if tr["back"] is None else f"(Some {c_dtree(tr['back'])})"
+        out.append((name, f"(mk_tcase {c_dtree(tr['orig'])} {core.clist(_lab(k) for k in tr['keys'])} {back})"))
+    return out
+
+
+def emit_tree_file(texts) -> str:
+    body = ";\n  ".join(texts)
+    return ("From Coq Require Import ZArith List String.\nFrom PyxelV Require Import Model.Codec Model.CodecTree.\n"
+            "Import ListNotations.\nOpen Scope string_scope.\n"
+            f"Definition tcases : list tree_case := [\n  {body}\n].\n"
+            "Eval vm_compute in tree_mismatches slash hash tcases.\n"
+            "Eval vm_compute in tree_violations tcases.\n")
 
 
 def emit_file(texts) -> str:
@@ -257,17 +589,78 @@ def diff_fields(o, b):
             aspect = None
             if f == "charge_frame" and x["c"] == y["c"] and x["i"] != y["i"]:
                 aspect = "row_labels_only"
+            if x["k"] == "keyed" and y["k"] == "keyed":
+                aspect = keyed_aspect(x["m"], y["m"])
             out.append((f, "changed", aspect))
     return out
+
+
+def _dt_class(dt):
+    """the dtype a list of Python numbers comes back with (what is left of a dtype when only the values are stored)."""
+    import re
+
+    if re.fullmatch(r"u?int\d+", dt):
+        return "int64"
+    if re.fullmatch(r"float\d+", dt):
+        return "float64"
+    if re.fullmatch(r"complex\d+", dt):
+        return "complex128"
+    if dt.startswith("datetime64"):
+        return "datetime64"
+    return dt
+
+
+def keyed_aspect(xm, ym):
+    """How two path -> items maps differ (report / signature only; the verdict was computed in Coq):
+    groups_lost | groups_gained | group_content_lost (an entry of a group that is still there is gone) |
+    dtype_only (same names, dims, shapes and values; only dtype names differ, each within its value class, or a
+    zero-length variable came back float64) | content_changed | mixed."""
+    X, Y = {k: v for k, v in xm}, {k: v for k, v in ym}
+    kinds = set()
+    if set(X) - set(Y):
+        kinds.add("groups_lost")
+    if set(Y) - set(X):
+        kinds.add("groups_gained")
+    for k in set(X) & set(Y):
+        if X[k] == Y[k]:
+            continue
+        a, b = {lab: arr for lab, arr in X[k]}, {lab: arr for lab, arr in Y[k]}
+        if set(a) - set(b):
+            kinds.add("group_content_lost")
+        if set(b) - set(a):
+            kinds.add("group_content_gained")
+        for lab in set(a) & set(b):
+            u, v = a[lab], b[lab]
+            if u == v:
+                continue
+            same_vals = u["sh"] == v["sh"] and u["v"] == v["v"]
+            if same_vals and (_dt_class(u["dt"]) == _dt_class(v["dt"]) or (0 in u["sh"] and v["dt"] == "float64")):
+                kinds.add("dtype_only")
+            else:
+                kinds.add("content_changed")
+    if len(kinds) == 1:
+        return next(iter(kinds))
+    return "mixed:" + "+".join(sorted(kinds)) if kinds else None
 
 
 def input_class(payload, f):
     init = payload["spec"].get("init", {})
     if f == "data" and any("#" in n["path"] for n in (init.get("data") or {}).get("nodes", [])):
         return "hash_in_group_name"
+    if f in ("data", "scene") and (init.get(f) or {}).get("tree"):
+        return tree_class(init[f]["tree"])
+    if f == "*":        # the whole reload failed: the first non-plain class among the initialised containers
+        for g in ("data", "scene", "charge_frame", "photon"):
+            if init.get(g) is not None:
+                c = input_class(payload, g)
+                if c != "plain" and not c.startswith("photon_"):
+                    return c
+        return "plain"
     if f == "charge_frame" and (init.get("charge_frame") or {}).get("remove") is not None:
         return "relabelled_rows"
     if f == "photon" and init.get("photon"):
+        if init["photon"]["mode"] == "3d" and init["photon"].get("dtype", "float64") != "float64":
+            return "tree_dtype_not_default"
         return "photon_" + init["photon"]["mode"]
     return "plain"
 
@@ -285,11 +678,21 @@ def shrink_payload(payload, f):
 def violations_of(ctx, payload, obs, label):
     vs = []
     kind = payload["spec"]["kind"]
+    if label == "file":       # pipeline case, the file written by the save_detector model: an .asdf round trip
+        vs = violations_of(ctx, dict(payload, route="asdf"), {"orig": obs["file"], "back": obs["file_back"]}, "roundtrip")
+        for v in vs:
+            v.sig["written_by"] = "save_detector_model"
+            v.case = payload
+            v._full = payload
+        return vs
     if payload["route"] in ("dict", "asdf"):
         back = obs["back"]
         if "raise" in back:
-            sig = dict(clause="roundtrip", kind=kind, route=payload["route"], field="*", effect="raises:" + back["raise"])
-            vs.append(Violation("roundtrip", payload, back, "the saved detector", f"{kind} via {payload['route']}: reload raises {back['raise']}: {back.get('msg', '')}", sig))
+            sig = dict(clause="roundtrip", kind=kind, route=payload["route"], field="*", effect="raises:" + back["raise"],
+                       input_class=input_class(payload, "*"), stage=back.get("stage", "?"))
+            v = Violation("roundtrip", payload, back, "the saved detector",
+                          f"{kind} via {payload['route']}: {back.get('stage', 'save/load')} raises {back['raise']}: {back.get('msg', '')}", sig)
+            vs.append(v)
             return vs
         for f, effect, aspect in diff_fields(obs["orig"], back):
             sig = dict(clause="roundtrip", kind=kind, route=payload["route"], field=f, effect=effect,
@@ -364,7 +767,14 @@ def correspondence(ctx: Ctx, payloads, tag="c"):
         for i, o in zip(redo, again):
             obs[i] = o
     units = []  # (payload, obs, label, coq text)
+    invalid = [p for p, o in zip(payloads, obs) if "invalid_spec" in o]
+    ctx.count("generated_trees_rejected_by_xarray", len(invalid))
+    if len(invalid) > max(3, len(payloads) // 20):
+        ctx.broken.append(Broken("correspondence", "tree generator: too many specs are not valid DataTrees",
+                                 f"{len(invalid)} of {len(payloads)}", invalid[0]))
     for p, o in zip(payloads, obs):
+        if "invalid_spec" in o:
+            continue
         if "crash" in o or "driver_error" in o:
             ctx.broken.append(Broken("correspondence", "implementation driver failed", str(o)[:600], p))
             continue
@@ -380,11 +790,33 @@ def correspondence(ctx: Ctx, payloads, tag="c"):
             units.append((p, o, lab, txt))
     per = 30
     files = {f"{tag}_{k // per:03d}": emit_file([u[3] for u in units[k:k + per]]) for k in range(0, len(units), per)}
+    # the nested view of every data / scene tree against Model/CodecTree.v (flattening + escaping, rebuilding)
+    tunits = [(p, o, lab, txt) for p, o in zip(payloads, obs) if isinstance(o, dict) and o.get("trees")
+              for lab, txt in tree_units(p, o)]
+    tper = 60
+    tfiles = {f"{tag}t_{k // tper:03d}": emit_tree_file([u[3] for u in tunits[k:k + tper]]) for k in range(0, len(tunits), tper)}
+    files.update(tfiles)
     res = core.coq_eval_many(ctx, files, timeout=900, par=8)
     for name in sorted(files):
         if not res[name][0] or len(res[name][1]) != 2:      # retry once, alone
             res[name] = core.coq_eval(ctx, name, files[name], 900)
+    ctx.cov["tree_cases_note"] = ("tree_cases = data / scene trees compared in their NESTED form against Model/CodecTree.v "
+                                  "(keys written by to_dict = flatten + escape; rebuilt tree = unescape + nest)")
     mism, viol = [], []
+    for k, name in enumerate(sorted(tfiles)):
+        ok, evals, se = res[name]
+        chunk = tunits[k * tper:(k + 1) * tper]
+        if not ok or len(evals) != 2:
+            ctx.broken.append(Broken("correspondence", f"case file {name}.v did not evaluate", core.tail(se, 15)))
+            continue
+        for i in core.parse_int_list(evals[0]):
+            p, o, lab, _ = chunk[i]
+            ctx.broken.append(Broken("correspondence", "Model/CodecTree.v (flattening / nesting of a DataTree) vs implementation",
+                                     f"{p['route']} {p['spec']['kind']}: the {lab} tree: keys written {o['trees'][lab]['keys']}", p))
+        ctx.count("tree_cases", len(chunk))
+        ctx.cov["tree_spec_violations"] = ctx.cov.get("tree_spec_violations", 0) + len(core.parse_int_list(evals[1]))
+    for name in tfiles:
+        files.pop(name)
     for k, name in enumerate(sorted(files)):
         ok, evals, se = res[name]
         chunk = units[k * per:(k + 1) * per]
@@ -398,20 +830,38 @@ def correspondence(ctx: Ctx, payloads, tag="c"):
 
 def nontrivial_key(p):
     init = p["spec"].get("init", {})
-    return (p["route"], p["spec"]["kind"], tuple(sorted(init)), (init.get("photon") or {}).get("mode"))
+    trees = tuple(json.dumps((init.get(f) or {}).get("tree"), sort_keys=True) if isinstance(init.get(f), dict) else None
+                  for f in ("data", "scene"))
+    return (p["route"], p["spec"]["kind"], tuple(sorted(init)), (init.get("photon") or {}).get("mode"), trees)
 
 
 def account(ctx, units):
     seen = ctx.cov.setdefault("_keys", set())
     for p, o, lab, _ in units:
-        if lab == "final":
+        if lab in ("final", "file"):
             continue
         ctx.count("evaluations")
+        if p["route"] == "pipeline":
+            ctx.dist("pipeline_file_written_by", "save_detector model" if p.get("save") == "model" else "Detector.save")
+            ctx.dist("pipeline_group", p.get("group"))
         ctx.dist("route", p["route"])
         ctx.dist("kind", p["spec"]["kind"])
         ctx.dist("n_initialised", len(p["spec"].get("init", {})))
         for f in p["spec"].get("init", {}):
             ctx.dist("container", f + (":" + p["spec"]["init"][f]["mode"] if f == "photon" else ""))
+            if isinstance(p["spec"]["init"][f], dict) and f in ("photon", "pixel", "signal", "phase", "image"):
+                ctx.dist("array_dtype", f + ":" + p["spec"]["init"][f].get("dtype", "float64" if f != "image" else "uint16"))
+            tr = (p["spec"]["init"][f] or {}).get("tree") if f in ("data", "scene") else None
+            if tr:
+                ctx.dist("tree_flavour", f + ":" + tr.get("flavour", "?"))
+                gs = ([tr["root"]] if tr.get("root") else []) + tr["groups"]
+                ctx.dist("tree_depth", max([g["path"].count("/") for g in tr["groups"]] + [0]))
+                for g in gs:
+                    ctx.dist("tree_group_kind", "vars" if g["vars"] else "coords_only" if g["coords"] else
+                             "attrs_only" if g["attrs"] else "empty")
+                for _, v in tree_vars(tr):
+                    ctx.dist("tree_var_dtype", v["dtype"])
+                    ctx.dist("tree_var_ndim", len(v["shape"]))
         if p["spec"].get("init"):
             seen.add(nontrivial_key(p))
 
@@ -458,6 +908,83 @@ def confirm_shrunk(ctx: Ctx):
                  and any(x[0] == f and x[1] == v.sig.get("effect") for x in diff_fields(o["orig"], o["back"])))
         if not still:
             v.case = v._full
+    shrink_trees(ctx)
+
+
+def _tree_candidates(tree):
+    """smaller trees: one group removed (only a group without descendants in the spec), the root removed, one
+    variable / coordinate removed, the attributes of one group / variable removed."""
+    out = []
+    paths = [g["path"] for g in tree["groups"]]
+    for i, g in enumerate(tree["groups"]):
+        if not any(q != g["path"] and q.startswith(g["path"] + "/") for q in paths):
+            out.append(dict(tree, groups=tree["groups"][:i] + tree["groups"][i + 1:]))
+    if tree.get("root"):
+        out.append(dict(tree, root=None))
+    gs = [("root", None)] if tree.get("root") else []
+    gs += [("groups", i) for i in range(len(tree["groups"]))]
+    for where, i in gs:
+        g = tree["root"] if where == "root" else tree["groups"][i]
+
+        def put(ng, where=where, i=i):
+            if where == "root":
+                return dict(tree, root=ng)
+            return dict(tree, groups=tree["groups"][:i] + [ng] + tree["groups"][i + 1:])
+        for kind in ("vars", "coords"):
+            for j in range(len(g[kind])):
+                out.append(put(dict(g, **{kind: g[kind][:j] + g[kind][j + 1:]})))
+                if g[kind][j].get("attrs"):
+                    out.append(put(dict(g, **{kind: g[kind][:j] + [dict(g[kind][j], attrs={})] + g[kind][j + 1:]})))
+        if len(g.get("attrs") or {}) > 0 and (g["vars"] or g["coords"] or len(g["attrs"]) > 1):
+            keys = list(g["attrs"])
+            out.append(put(dict(g, attrs={k: g["attrs"][k] for k in keys[1:]})))
+    return out
+
+
+def shrink_trees(ctx: Ctx, rounds=6, width=24):
+    """Greedy minimisation of the tree of a NEW violation (not a known finding): keep removing groups, variables,
+    coordinates and attributes while the implementation still fails in the same way (same field, effect, aspect).
+    A candidate that can no longer be built (a child that needs the coordinate of a removed parent) is skipped.
+    All violations are shrunk together: one driver batch per round."""
+    fs = core.load_findings(ctx.prop)
+    active, done = [], set()
+    for v in ctx.violations:
+        f = v.sig.get("field")
+        if v.clause != "roundtrip" or f not in ("data", "scene") or any(core.finding_matches(e, v) for e in fs):
+            continue
+        key = json.dumps(v.sig, sort_keys=True)
+        if key in done or len(done) >= 5:
+            continue
+        done.add(key)
+        active.append([v, v.case])
+    for _ in range(rounds):
+        batch = []      # (index into active, candidate case)
+        for i, (v, case) in enumerate(active):
+            f = v.sig["field"]
+            tree = ((case["spec"].get("init") or {}).get(f) or {}).get("tree")
+            for t in (_tree_candidates(tree)[:width] if tree else []):
+                c = json.loads(json.dumps(case))
+                c["spec"]["init"][f]["tree"] = t
+                batch.append((i, c))
+        if not batch:
+            break
+        obs = core.run_driver(ctx, "c18", [c for _, c in batch], workers=4, timeout=300)
+        moved = set()
+        for (i, c), o in zip(batch, obs):
+            v = active[i][0]
+            if i in moved or "back" not in o or "raise" in o["back"]:
+                continue
+            if any(x[0] == v.sig["field"] and x[1] == v.sig.get("effect") and x[2] == v.sig.get("aspect")
+                   for x in diff_fields(o["orig"], o["back"])):
+                active[i][1] = c
+                moved.add(i)
+        if not moved:
+            break
+    for v, case in active:
+        if case is not v.case:
+            if not hasattr(v, "_full"):
+                v._full = v.case
+            v.case = case
 
 
 def run(ctx: Ctx):
@@ -489,11 +1016,21 @@ def run(ctx: Ctx):
     if h5.get("h5py"):
         ctx.log("note: h5py is importable here but the HDF5 route is not implemented in this check")
 
-    cases = structured_cases(ctx, r) + random_cases(ctx, r, ctx.budget(120, 300)) + pipeline_cases(ctx, r, ctx.budget(3, 8))
+    corpus = []
+    for f in sorted((core.VERIF / "harness" / "corpus" / "C18").glob("*.json")):
+        try:
+            corpus.append(json.loads(f.read_text()))
+        except Exception as ex:  # noqa: BLE001
+            ctx.broken.append(Broken("correspondence", f"corpus file {f.name} unreadable", repr(ex)))
+    ctx.cov["corpus_cases"] = len(corpus)
+    cases = corpus + structured_cases(ctx, r) + random_cases(ctx, r, ctx.budget(100, 200)) + pipeline_cases(ctx, r, ctx.budget(3, 8))
     if not ctx.quick:
         cases += exhaustive_cases(ctx, ctx.rng("exh"))
+        cases += exhaustive_tree_cases(ctx, ctx.rng("exh_trees"))
         ctx.cov["exhaustive"] = ("all subsets of initialised containers (photon none/2-D/3-D): 4 types via .asdf files, "
-                                 "MKID also via to_dict/from_dict")
+                                 "MKID also via to_dict/from_dict; all 624 trees over the paths /a, /b, /a/x, /a/x/y with every "
+                                 "content class (variables / coordinates only / attributes only / nothing) per group, as "
+                                 "processed data via .asdf and (the 100 with /a/x/y and without /b) as scene groups via the dictionary")
     units, mism, viol = correspondence(ctx, cases)
     account(ctx, units)
     process(ctx, units, mism, viol)
@@ -507,9 +1044,22 @@ def run(ctx: Ctx):
     for p, o, lab, _ in units[:200:45]:
         ctx.sample(dict(route=p["route"], kind=p["spec"]["kind"], initialised=sorted(p["spec"].get("init", {})),
                         rows=p["spec"]["rows"], cols=p["spec"]["cols"], props=p["spec"].get("props")))
+    order_violations(ctx)
     (ctx.build / "mismatches.json").write_text(json.dumps([dict(case=p, label=lab) for p, o, lab, _ in mism], indent=1)[:2000000])
     if ctx.broken and not new_violations(ctx):
         search(ctx)
+
+
+def order_violations(ctx: Ctx):
+    """core.finish prints the first five distinct signatures: put one representative of every distinct defect CLASS
+    (clause, container, effect, aspect, input class - whatever the detector type or route) first, so that unrelated
+    defects present at the same time are each reported with a replay."""
+    first, rest, seen = [], [], set()
+    for v in ctx.violations:
+        k = (v.clause, v.sig.get("field"), v.sig.get("effect"), v.sig.get("aspect"), v.sig.get("input_class"))
+        (rest if k in seen else first).append(v)
+        seen.add(k)
+    ctx.violations[:] = first + rest
 
 
 def new_violations(ctx: Ctx):
@@ -538,6 +1088,7 @@ def search(ctx: Ctx):
     units, mism, viol = correspondence(ctx, cases, tag="s")
     account(ctx, units)
     process(ctx, units, [], viol)
+    order_violations(ctx)
     ctx.cov.pop("_keys", None)
     ctx.cov["search_cases"] = len(units)
 
@@ -584,20 +1135,24 @@ META = dict(
     level_text=(
         "Coq theorems over an executable model of the detector <-> dictionary <-> ASDF codec whose key tables (which "
         "container is written under which key, which key from_dict reads back into which container, type tag / guard / "
-        "dispatch, Photon sub-keys, '/'<->'#' escaping) and the body shape of load_detector are regenerated from the "
-        "source on every run: for every detector type and EVERY subset of initialised containers from_dict(to_dict d) = d "
-        "(and the same through the ASDF conversions) on the containers the tables cover, proved once for arbitrary tables "
-        "and instantiated by vm_compute; the full statements are kept and refuted by proved witnesses where the current "
-        "code breaks them (MKID phase never read back; '#' in a processed-data group name; cluster-table row labels not "
-        "stored by the ASDF backend; load_detector is a no-op on the running detector). That the real to_dict/from_dict/"
-        "save/load behave as the model is established by correspondence (testing): structural field-by-field comparison of "
-        "original vs. reloaded detector for 4 types x container subsets (exhaustive in the thorough tier) via dict and via "
-        ".asdf files, and a pipeline [load_detector; probe]; model-vs-implementation and implementation-vs-specification "
-        "are both decided inside Coq."),
+        "dispatch, Photon sub-keys, '/'<->'#' escaping, whether the backend keeps the cluster table's row labels) and the "
+        "body shapes of load_detector / save_detector are regenerated from the source on every run: for every detector type "
+        "and EVERY subset of initialised containers from_dict(to_dict d) = d on ALL nine containers, and the same through the "
+        "ASDF conversions, proved once for arbitrary tables and instantiated by vm_compute (C18_roundtrip_partial / "
+        "C18_file_roundtrip_partial; the remaining hypotheses name exactly the open defects: a '#' in a group name, a "
+        "variable whose dtype / shape does not survive Dataset.to_dict()'s nested lists - each kept as a refuted full "
+        "statement with a proved witness); for ALL trees the group structure (every group, also one without data "
+        "variables, with every entry, shape and value) survives whatever the dtypes (C18_tree_structure_kept); "
+        "load_detector stores every container into the passed detector (C18_load_replaces) and save ... load inside "
+        "pipelines shows the saved containers to later models (C18_load_sees_saved). That the real to_dict/from_dict/"
+        "save/load/save_detector/load_detector behave as the model is established by correspondence (testing): structural "
+        "comparison of original vs. reloaded detector for 4 types x container subsets x tree classes via dict and via "
+        ".asdf files, and pipelines [fill; save_detector] / [fill; probe; load_detector; probe] in every model group; "
+        "model-vs-implementation and implementation-vs-specification are both decided inside Coq."),
     level_note=(
         "Trusted: Coq kernel + vm_compute; translator/c18.py; the correspondence harness and canonical form. Not carried: "
-        "asdf/xarray/pandas serialisation internals (payloads are opaque in the model), HDF5 (h5py absent), detector "
-        "state outside the property's list (Charge.nextid, _memory, persistence, readout clock)."),
+        "asdf's byte-level serialisation, xarray/pandas internals beyond the list model, HDF5 (h5py absent), detector "
+        "state outside the property's list (Charge.nextid, _memory, persistence, readout clock), DataTree root names."),
     technique="Coq proof over table-driven codec model + regenerated key tables + in-Coq correspondence/spec evaluation",
     design_ref="DESIGN.md section 6, C18",
 )
